@@ -293,7 +293,7 @@ func (cs *ContractSet) directive(cur **Contract, body, path string, ln int, pkgP
 			cs.GuardDecls = append(cs.GuardDecls, [2]string{pkgPath, rest})
 			return nil
 		}
-	case "mapinit", "callsonly", "mapwritesonly", "fieldwritesonly":
+	case "mapinit", "callsonly", "mapwritesonly", "mapdeletesonly", "fieldwritesonly":
 		d, err := parseStaticDecl(word, rest)
 		if err != nil {
 			return fail("%v", err)
